@@ -180,8 +180,48 @@ class Collections:
             return E.Int(len(items))
         if name == "is_empty":
             return E.Int(1 if not items else 0)
+        if name in ("iter", "iter_mut") and k in ("vec", "set") and a0 is not None and a0[0] == "ref":
+            # a slice of scalars behind a reference: iterate by reference to the elements so that `*x = ..` writes through
+            loc = a0[1]
+            return seq("iter", [x if (x is not None and x[0] == "ref") else ("ref", loc[:-1] + (tuple(loc[-1]) + (("i", i),),)) for i, x in enumerate(items)])
         if name in ("iter", "into_iter", "iter_mut", "drain"):
             return seq("iter", items)
+        if name in ("index", "index_mut") and k == "vec" and len(args) == 2 and a0 is not None and a0[0] == "ref":
+            from .C09 import _rng
+            r = _rng(E, it, args[1], len(items))
+            if r is not None and r[0] is not None and r[1] is not None:
+                if not (0 <= r[0] <= r[1] <= len(items)):
+                    return E.DIVERGE
+                loc = a0[1]
+                view = seq("vec", [x if (x is not None and x[0] == "ref") else ("ref", loc[:-1] + (tuple(loc[-1]) + (("i", i),),)) for i, x in enumerate(items)][r[0]:r[1]])
+                nm = "view#%d" % (len(it.heap) + 1)
+                it.heap[nm] = view
+                return E.href(nm)
+            iv = it.deref_val(args[1])
+            if E.is_int(iv):
+                if not (0 <= iv[1] < len(items)):
+                    return E.DIVERGE
+                loc = a0[1]
+                x = items[iv[1]]
+                return x if (x is not None and x[0] == "ref") else ("ref", loc[:-1] + (tuple(loc[-1]) + (("i", iv[1]),),))
+        if name == "fill" and k == "vec" and len(args) == 2:
+            for i, x in enumerate(items):
+                if x is not None and x[0] == "ref":
+                    it.write_loc(x[1], args[1])
+            if not any(x is not None and x[0] == "ref" for x in items):
+                self._set(it, a0, seq(k, [args[1]] * len(items)))
+            return E.UNIT
+        if name in ("position", "rposition"):
+            order = list(range(len(items)))
+            if name == "rposition":
+                order = order[::-1]
+            for i in order:
+                r = it.deref_val(it.apply(args[1], [items[i]]))
+                if not E.is_int(r):
+                    raise E.Unsupported("%s predicate undetermined" % name)
+                if r[1]:
+                    return E.Some(E.Int(i))
+            return E.NONE
         if name in ("as_slice", "as_ref", "deref", "as_mut_slice", "deref_mut", "borrow"):
             return a0
         if name in ("clone", "to_vec", "to_owned"):
